@@ -5,7 +5,11 @@ properties quantify over libraries, not over 'first call on a new object').  Seq
 backwards so that each input is preceded by different ones; `poison` inputs (data on which the call may well
 raise: odd value types, corrupt metadata, unknown block classes) are interleaved, because cleanup that is
 skipped on an error path only shows in the NEXT call.  `judge(snapshot, inp, out)` may add the property's own
-oracle for the long-lived instance (e.g. copy mode still respected)."""
+oracle for the long-lived instance (e.g. copy mode still respected).
+
+A third pass hands the instance the SAME library object twice with an in-place edit in between that keeps the number
+of blocks (block order and the field order of every entry reversed): anything an instance remembers about an input
+object (by identity, by weak reference, by length) is stale by then."""
 from .canon import alias, canon, describe
 
 
@@ -19,9 +23,57 @@ def copy_judge(snap, lib, out):
     return None
 
 
+def edit_in_place(lib):
+    """Deterministic edit through the public API: same blocks, reversed; every entry's fields reversed."""
+    blocks = list(lib.blocks)
+    for b in blocks:
+        lib.remove(b)
+    for b in reversed(blocks):
+        fs = getattr(b, "fields", None)
+        if type(fs) is list and len(fs) > 1 and len({f.key for f in fs}) == len(fs):
+            for f in list(fs):
+                b.pop(f.key)
+            for f in reversed(fs):
+                b.set_field(f)
+    lib.add(list(reversed(blocks)))
+
+
+def _same_object_again(make, inputs, acc, label, case_of):
+    inst = make()
+    for i, mk in enumerate(inputs):
+        acc.trace(4)
+        acc.case(nontrivial_key=("leak-same-object", label, i))
+        results = []
+        for worker in (lambda: inst, make):
+            lib = mk()
+            try:
+                worker().transform(lib)
+            except Exception:
+                pass
+            try:
+                edit_in_place(lib)
+            except Exception:
+                results.append(("edit failed",))
+                continue
+            try:
+                results.append(canon(worker().transform(lib)))
+            except Exception as e:
+                results.append(("raised", type(e).__name__))
+        a, b = results
+        acc.step(("leak-same", label, i), "long-lived", hash(a))
+        if a != b:
+            acc.violation(
+                {"oracle": "reused_instance_equals_fresh", "middleware": label, "how": "same library object again, edited in between"},
+                {"case": {"leak": label, "order": "same object twice", "input": case_of(i) if case_of else i}, "observed": repr(a)[:400], "expected": repr(b)[:400]},
+                size=i,
+            )
+            break
+
+
 def run(make, inputs, acc, label, case_of=None, poison=(), judge=None):
     """make() -> fresh middleware; inputs / poison: lists of zero-argument factories of fresh libraries."""
     n = len(inputs)
+    _same_object_again(make, inputs, acc, label, case_of)
     orders = [list(range(n)), list(range(n))[::-1]]
     for oi, order in enumerate(orders):
         inst = make()
